@@ -429,6 +429,26 @@ class TLSRecordLayer(object):
             yield bytes(returnBytes)
         except GeneratorExit:
             raise
+        except (TLSProtocolException, TLSInternalError) as exc:
+            # a malformed post-handshake message was detected deep in the
+            # processing code without being translated into an alert: tell
+            # the peer before closing, like the handshake wrapper does
+            description = AlertDescription.internal_error
+            for exc_type, desc in (
+                    (TLSIllegalParameterException,
+                     AlertDescription.illegal_parameter),
+                    (TLSDecodeError, AlertDescription.decode_error),
+                    (TLSUnexpectedMessage,
+                     AlertDescription.unexpected_message)):
+                if isinstance(exc, exc_type):
+                    description = desc
+                    break
+            try:
+                for result in self._sendError(description, str(exc)):
+                    yield result
+            except socket.error:
+                self._shutdown(False)
+                raise exc
         except:
             self._shutdown(False)
             raise
